@@ -38,15 +38,81 @@ type E1 struct {
 
 var e1Cache = map[*Model]*E1{}
 
-// blockEntries: functions run at block boundaries, explored like handlers.
+// blockEntries: functions run at block boundaries, explored like handlers. The begin-block entry is read
+// off the call graph: Module.BeginBlock and the glue of the module package call into the server / keeper
+// packages (through the module's Keeper interface); the first function outside the module package on that
+// way from which the SellOrder table is written is the entry — so that what the hook passes down (the
+// context, the block time) is part of what is explored. Falls back to the keeper method by name.
 func blockEntries(m *Model) []*EntryPoint {
 	var out []*EntryPoint
+	if fn := beginBlockEntry(m); fn != nil {
+		return append(out, &EntryPoint{Kind: "beginblock", Service: "marketplace", Name: "PruneSellOrders", Fn: fn, Implemented: true})
+	}
 	for _, fn := range m.subjectFns(false) {
 		if fn.Name() == "PruneSellOrders" && fn.Signature.Recv() != nil && strings.HasSuffix(fnPkgPath(fn), "marketplace/keeper") {
 			out = append(out, &EntryPoint{Kind: "beginblock", Service: "marketplace", Name: "PruneSellOrders", Fn: fn, Implemented: true})
 		}
 	}
 	return out
+}
+
+func moduleBeginBlock(m *Model) *ssa.Function {
+	for _, pk := range m.P.RepoList {
+		if !strings.HasSuffix(pk.PkgPath, "x/ecocredit/v3/module") {
+			continue
+		}
+		if tn, ok := pk.Types.Scope().Lookup("Module").(*types.TypeName); ok {
+			if sel := m.P.SSA.MethodSets.MethodSet(tn.Type()).Lookup(pk.Types, "BeginBlock"); sel != nil {
+				return m.P.SSA.MethodValue(sel)
+			}
+		}
+	}
+	return nil
+}
+
+func beginBlockEntry(m *Model) *ssa.Function {
+	begin := moduleBeginBlock(m)
+	if begin == nil {
+		return nil
+	}
+	g := NewGraph(m.P)
+	modPkg := fnPkgPath(begin)
+	writesSellOrders := func(fn *ssa.Function) bool {
+		for f := range g.Closure([]*ssa.Function{fn}) {
+			for _, ci := range callsIn(f) {
+				if call, ok := ci.(*ssa.Call); ok {
+					if oc := m.AsORMCall(call); oc != nil && oc.Table.Name == "SellOrder" && isWriteOp(oc.Kind) {
+						return true
+					}
+				}
+			}
+		}
+		return false
+	}
+	seen := map[*ssa.Function]bool{begin: true}
+	work := []*ssa.Function{begin}
+	var cands []*ssa.Function
+	for len(work) > 0 {
+		f := work[0]
+		work = work[1:]
+		for _, cal := range g.Callees(f) {
+			if seen[cal] || len(cal.Blocks) == 0 {
+				continue
+			}
+			seen[cal] = true
+			if fnPkgPath(cal) == modPkg {
+				work = append(work, cal)
+				continue
+			}
+			if g.isSubjectFn(cal) && cal.Signature.Recv() != nil && writesSellOrders(cal) {
+				cands = append(cands, cal)
+			}
+		}
+	}
+	if len(cands) != 1 {
+		return nil
+	}
+	return cands[0]
 }
 
 func RunE1(m *Model) *E1 {
